@@ -296,7 +296,7 @@ def _match_known(mod, known, sc_name, case):
     return None
 
 
-def run_subcheck(mod, sc: SubCheck, tier: str, seedval: int, n_examples: int, known):
+def run_subcheck(mod, sc: SubCheck, tier: str, seedval: int, n_examples: int, known, part=(0, 1)):
     """Run one sub-check. Returns (evidence dict, violation or None)."""
     import hypothesis
     from hypothesis import HealthCheck, Phase, given, seed, settings
@@ -330,7 +330,9 @@ def run_subcheck(mod, sc: SubCheck, tier: str, seedval: int, n_examples: int, kn
 
     if sc.exhaustive is not None:
         ev.exhaustive = True
-        for case in sc.exhaustive(tier):
+        for i_case, case in enumerate(sc.exhaustive(tier)):
+            if i_case % part[1] != part[0]:
+                continue  # enumerated cases are dealt round-robin to the worker processes
             try:
                 run_body(case)
             except Violation as v:
@@ -416,13 +418,15 @@ def _worker(args):
                 continue
             n = sc.examples.get(tier, sc.examples.get("quick", 100))
             if sc.exhaustive is not None:
-                if shard != 0:
-                    continue
                 per = n
             else:
                 per = n // nshards + (1 if shard < n % nshards else 0)
+                # Hypothesis opens every run with the minimal example of the strategy: in all shards but the first it
+                # is a repetition (counted once in the evidence), so those shards get one more example
+                if shard > 0 and per > 0:
+                    per += 1
             sd = derive_seed(base_seed, mod.PROPERTY_ID, sc.name, shard)
-            ev, vio = run_subcheck(mod, sc, tier, sd, per, known)
+            ev, vio = run_subcheck(mod, sc, tier, sd, per, known, part=(shard, nshards) if sc.exhaustive is not None else (0, 1))
             out.append((sc.name, ev, vio))
         return ("ok", out)
     except HarnessError as e:
